@@ -264,8 +264,43 @@ def fresh_array(name, ndim, kind="real", shape=None, path=None, min_size=0):
     return SArr(tuple(shape), lambda idx: Sym(f(*[V.lift(i) for i in idx])), kind)
 
 
+class TObj(TSpec):
+    """instance of a repo class with the given attribute specs (the class invariant goes into `requires`)"""
+
+    def __init__(self, clskey, attrs, src=None):
+        self.clskey, self.attrs, self._src = clskey, attrs, src
+
+    def fresh(self, name, path):
+        interp = path.interp
+        cls = interp.resolve(self.clskey)
+        obj = X.Obj(cls, {})
+        for k, sp in self.attrs.items():
+            obj.attrs[k] = sp.fresh(f"{name}_{k}", path)
+        return obj
+
+    def src(self, name, model):
+        if self._src is not None:
+            return self._src
+        return "None  # object inputs are built by the custom replay"
+
+    def candidates(self, name):
+        out = []
+        for k, sp in self.attrs.items():
+            out.extend(sp.candidates(f"{name}_{k}"))
+        return out
+
+
+def make_obj(interp, clskey, **attrs):
+    cls = interp.resolve(clskey)
+    o = X.Obj(cls, dict(attrs))
+    if getattr(cls, "is_namedtuple", False):
+        o.attrs["_fields"] = tuple(cls.fields)
+    return o
+
+
 class T:
     Rot = TRot
+    Obj = TObj
     Backend = TBackend
     Int, Real, Bool, Tuple, List, Const, OneOf, Slice, Vec, Arr = (
         TInt, TReal, TBool, TTuple, TList, TConst, TOneOf, TSlice, TVec, TArr)
@@ -309,6 +344,14 @@ class Contract:
     # evaluation of a clause -------------------------------------------------
     def _env(self, interp, bound, extra=None):
         vars = dict(HELPERS)
+
+        def called(key, n=0):
+            """ghost: result of the n-th modular call to `key` on this path"""
+            hits = [r for (k, b, r) in interp.call_log if k == key or k.endswith(key)]
+            if len(hits) <= n:
+                raise CheckerFault(f"called({key!r}, {n}): no such modular call on this path")
+            return hits[n]
+        vars["called"] = called
         vars.update(self.helpers)
         vars.update(bound)
         if extra:
@@ -346,7 +389,10 @@ class Contract:
             res = self.result(interp, bound)
         names = self.call_ensures if self.call_ensures is not None else list(self.ensures)
         for n in names:
+            if isinstance(self.ensures[n], dict):
+                continue
             path.assume(self.eval_clause(interp, self.ensures[n], bound, {"result": res}))
+        interp.call_log.append((self.key, bound, res))
         return res
 
     def _exc_class(self, interp, f, name):
